@@ -1030,12 +1030,15 @@ class Dispatch(Unit):
         T = self.TYPES[k]
         v = E.new_bool('v') if T is Boolean else E.new_int('v', *(dom(T.__name__) if T.__name__ in SCALARS else (0, (1 << 31) - 1)))
         a, b = OutSocket(), OutSocket()
-        I.call(I.getattr_(T, 'send_with_context'), v, a, ctx)
-        I.call(I.getattr_(T, 'send'), v, b)
-        E.check('dispatch.send[%s]' % T.__name__, a.out == b.out)
-        r1 = I.call(I.getattr_(T, 'read_with_context'), InStream(I, a.out), ctx)
-        r2 = I.call(I.getattr_(T, 'read'), InStream(I, a.out))
-        E.check('dispatch.read[%s]' % T.__name__, r1 == r2)
+        try:
+            I.call(I.getattr_(T, 'send_with_context'), v, a, ctx)
+            I.call(I.getattr_(T, 'send'), v, b)
+            E.check('dispatch.send[%s]' % T.__name__, a.out == b.out)
+            r1 = I.call(I.getattr_(T, 'read_with_context'), InStream(I, a.out), ctx)
+            r2 = I.call(I.getattr_(T, 'read'), InStream(I, a.out))
+            E.check('dispatch.read[%s]' % T.__name__, r1 == r2)
+        except PyRaise as e:
+            E.check('dispatch.no-raise[%s]' % T.__name__, False, note='%r' % (e.exc,))
         return None
 
     def replay(self, model, label):
